@@ -1044,6 +1044,36 @@ static void hash_resize(size_t n, cstl_hash_func_t *f)
     } else if (named >= 0 && named != h_fn_cur && named != h_fn_old) h_fn_failed |= 1u << named;
     hash_audit("resize");
 }
+/* a resize of an EMPTY table that already has a bucket array (sized up again before anything is inserted, or emptied by
+ * erase): the load is 0 either way, so the outcome is read white-box from the geometry in force / pending; what is demanded is
+ * what C16 says -- took it, or quietly did nothing after a refused request -- plus "the geometry never exceeds the storage" */
+static void hash_resize_empty(size_t n, cstl_hash_func_t *f)
+{
+    const int named = hfn_index(f);
+    size_t eff;
+    int i, cnt = 0, took;
+    for (i = 0; i < HN; i++) cnt += hlive[i];
+    if (!h_ready || cnt != 0) return;
+    CALL_BEGIN("hash.resize", "n %ld on an empty table that has buckets", n, 0);
+    hfn_begin("resize", named);
+    cstl_hash_resize(&HT, n, f);
+    hfn_check(0);
+    eff = HT.bucket.rh.hash != NULL ? HT.bucket.rh.count : HT.bucket.count;
+    VRT_CHECK(HT.bucket.capacity >= HT.bucket.count && HT.bucket.capacity >= eff, "faults.hash.resize.geometry-exceeds-storage",
+              "after a resize of an empty table: %zu buckets in force / %zu pending, storage for %zu", HT.bucket.count, eff, HT.bucket.capacity);
+    took = eff == n;
+    if (!took) { require_fired("hash.resize", "no change"); count_fail("hash.resize"); COUNT("hash.resize.empty-table.failed"); }
+    else {
+        COUNT("hash.resize.empty-table.took");
+        if (n != h_buckets || (named >= 0 && named != h_fn_cur)) {
+            h_fn_old = h_fn_cur;
+            if (named >= 0) { h_fn_cur = named; h_fn_failed &= ~(1u << named); }
+            h_buckets = n;
+        }
+    }
+    if (!took && named >= 0 && named != h_fn_cur && named != h_fn_old) h_fn_failed |= 1u << named;
+    hash_audit("resize");
+}
 static void hash_shrink(void)
 {
     const size_t cap = HT.bucket.capacity;      /* white-box read, only to classify the outcome for the counters */
@@ -1104,6 +1134,8 @@ static void script_hash(void)
     for (i = 0; i < HN; i++) he[i].id = 3 * i + 1;
     cstl_hash_init(&HT, offsetof(struct helem, n));
     hash_first_resize(4, hf0, hf2);
+    /* sized up again before anything is inserted: beyond the capacity, then smaller */
+    hash_resize_empty(64, NULL); hash_resize_empty(6, hf0);
     for (i = 0; i < 6; i++) hash_ins(i);
     hash_resize(8, NULL); hash_ins(6);
     hash_resize(16, hf1); hash_ins(7); hash_del(2);
@@ -1118,6 +1150,9 @@ static void script_hash(void)
     /* a resize that fails while the rehash of the previous one is still pending, naming a third function */
     h_quiet = 1; hash_resize(40, hf0); hash_del(5); hash_resize(41, hf2); h_quiet = 0; hash_audit("resize");
     hash_shrink(); hash_resize(2, NULL); hash_shrink();
+    /* emptied by erase, then grown beyond its storage */
+    for (i = 0; i < HN; i++) if (hlive[i]) hash_del(i);
+    hash_resize_empty(50, hf1); hash_ins(1); hash_ins(12);
     /* the table lives a second time: clear, then a FIRST resize again, naming a function the table never had */
     hash_clear_now(0);
     hash_first_resize(5, hf3, hf1);
@@ -1803,6 +1838,7 @@ static void winit(void)
     }
 }
 static const char *const required[] = {
+    "hash.resize.empty-table.took", "hash.resize.empty-table.failed",
     "documented-failure.map.insert", "documented-failure.vector.reserve", "documented-failure.vector.shrink_to_fit",
     "documented-failure.vector.resize.abort", "documented-failure.string.reserve", "documented-failure.string.growth.abort",
     "documented-failure.hash.resize", "documented-failure.hash.shrink_to_fit", "documented-failure.unique_ptr.alloc",
